@@ -72,7 +72,12 @@ class Fn:
                 out = out + [t["unwind"]]
         elif k == "other":
             out = list(t.get("succ", []))
-        return out
+        # edges into empty `unreachable` blocks do not exist at run time
+        return [s for s in out if not self._is_unreachable(s)]
+
+    def _is_unreachable(self, bb):
+        b = self.blocks[bb]
+        return b["term"]["k"] == "unreachable" and not b["stmts"]
 
     def preds(self):
         if self._preds is None:
